@@ -118,7 +118,9 @@ def update_post(prog: Program, at_frame: bool, has_next: bool):
         "state.Z": NF.atom("Z"),
     }
     it.objenv.update(pre)
-    it.run(fi, {}, "forcing")
+    _, fr = it.run(fi, {}, "forcing")
+    # every `return` inside update is an exit too: its state must satisfy the same obligations
+    notes["early_exits"] = [(st, env) for st, env in fr.return_states]
     return it.objenv, notes, fi
 
 
@@ -182,6 +184,12 @@ def handover_invariant(prog: Program, rep: Report) -> None:
         env, notes, fi = update_post(prog, False, True)
         rep.check(r, fi.qual, f"between frames: {u} += {dU}", same(field(env, u), a_u + a_d), what_bad=f"must advance by exactly one increment; got {vtext(field(env, u))} (undecided tests: {notes['undecided']})", what_ok="u + dU", loc=fi.loc())
         rep.check(r, fi.qual, f"between frames: {un}, {dU} unchanged, nothing read", same(field(env, un), a_un) and same(field(env, dU), a_d) and not notes.get("reads"), what_bad=f"{un} = {vtext(field(env, un))}, {dU} = {vtext(field(env, dU))}, reads {notes.get('reads')}", what_ok="unchanged", loc=fi.loc())
+    # early exits: a `return` before the end must leave the fields in the same state as the normal exit
+    for at_frame, has_next, label in ((True, True, "frame step"), (False, True, "between frames")):
+        env, notes, fi = update_post(prog, at_frame, has_next)
+        for st, e2 in notes.get("early_exits", []):
+            same_state = all(vtext(e2.get(f"forcing.fields['{k}']")) == vtext(env.get(f"forcing.fields['{k}']")) for k in ("u", "v", "u_new", "v_new", "dU", "dV"))
+            rep.check("R03.2", fi.qual, f"early exit `{short(st)}` at line {st.lineno} ({label})", same_state, what_bad=f"update returns before the fields are advanced ({ {k: vtext(e2.get(chr(102)+'orcing.fields['+repr(k)+']')) for k in ('u', 'dU')} }): the forcing lags behind the clock from this step on", what_ok="same field state as the normal exit", loc=fi.loc(st))
     # scalars (R03.6)
     env, notes, fi = update_post(prog, True, True)
     fr_reads = notes.get("field_reads", [])
